@@ -235,6 +235,8 @@ func zzPathLists() [][][]zzStep {
 		{{f(63)}},
 		{{f(64)}, {f(9), f(1)}},
 		{{f(63)}, {f(64)}},
+		{{f(9), f(3), ix(0)}},
+		{{f(9), f(3), ix(1)}, {f(9), f(3), ix(2)}},
 	}
 }
 
@@ -248,6 +250,9 @@ func zzMaskValue() *Root {
 	for _, in := range []*Inner{v.Inn, v.Rin, v.Li[0], v.Li[1], sm["k"], sm["q"]} {
 		in.Ll = []int32{zzrt.Int32("i"), zzrt.Int32("i")}
 	}
+	// three elements: the element count of a masked list is computed by a loop over the indices,
+	// and a selection that keeps an early index and drops later ones needs at least three
+	v.Rin.Ll = append(v.Rin.Ll, zzrt.Int32("i"))
 	return v
 }
 
@@ -389,8 +394,8 @@ func c13Variant(label, options string, zeroReq bool) *Prop {
 		Prepare: func(r *runner) error {
 			prog := corpusMask()
 			r.spec.Harnesses = []Harness{
-				{Func: "H_C13_write", Quick: tuples(seq(0, 14), seq(0, 1)), Covers: []string{"end"}},
-				{Func: "H_C13_read", Quick: tuples(seq(0, 14), seq(0, 1)), Covers: []string{"end"}},
+				{Func: "H_C13_write", Quick: tuples(seq(0, 16), seq(0, 1)), Covers: []string{"end"}},
+				{Func: "H_C13_read", Quick: tuples(seq(0, 16), seq(0, 1)), Covers: []string{"end"}},
 				{Func: "H_C13_nil", Covers: []string{"end"}},
 			}
 			return prepareGenerated(r, prog, genConfig{Options: options}, entryC13(zeroReq))
@@ -401,7 +406,7 @@ func init() {
 	register(&Prop{
 		ID: "C13", QuickBudget: 25 * time.Minute, ThoroughBudget: 90 * time.Minute,
 		Functions:   []string{"generated Write/Read with with_field_mask (FieldWriteMap/Set/List, FieldReadMap/Set/List, Set_FieldMask propagation) for the corpus fm.thrift", "fieldmask.NewFieldMask, (*FieldMask).Field/Int/Str/All/Exist", "thrift_reflection.RegisterAST and descriptor lookups", "generator/golang/thrift.go ZeroWriter output (exercised through the generated code)"},
-		Bounds:      "root struct with required/optional scalars, nested struct, list<struct>, map<string,struct>, map<i32,string>, set<string>, required struct; 15 designed path lists (field by id, list indices incl. out of range, string and int keys present and absent, '*' over elements, nested combinations) x white/black; all scalar leaves of the value symbolic (full width), 2 list elements, 2 map entries with concrete keys; configurations: default, field_mask_halfway, field_mask_zero_required",
+		Bounds:      "root struct with required/optional scalars, nested struct, list<struct>, map<string,struct>, map<i32,string>, set<string>, required struct; 17 designed path lists (field by id, list indices incl. out of range, string and int keys present and absent, '*' over elements, nested combinations) x white/black; all scalar leaves of the value symbolic (full width), 2 list elements, 2 map entries with concrete keys; configurations: default, field_mask_halfway, field_mask_zero_required",
 		Assumptions: []string{"the path lists are designed (sampled); values are solver-decided", "descriptors come from thrift_reflection.RegisterAST on the same IDL text; the embedded descriptor bytes of *-reflection.go (gzip+meta) are not executed (BuildFileDescriptor is stubbed)", "map keys are concrete so that mask lookups by key do not fork"},
 		Variants: []*Prop{
 			c13Variant("default", "with_reflection,with_field_mask", false),
